@@ -142,7 +142,7 @@ def run_batch(b):
                 tr = history(acc, g, kind, b["n"], treq, tans)
         acc.sample({"source": kind, "history_head": tr[:12]})
     elif b["kind"] == "conc":
-        from checks import c15_conc
+        from checks import conc_c15 as c15_conc
         c15_conc.run(acc, b)
     return acc
 
@@ -155,7 +155,7 @@ def main(tier, seed):
     for i in range(8 if q else 32):
         batches.append({"kind": "hist", "sources": sources, "reps": 1 if q else 3, "n": 600 if q else 5000, "seed": seed * 7 + i})
     try:
-        from checks import c15_conc
+        from checks import conc_c15 as c15_conc
         batches += c15_conc.plan(tier, seed)
     except ImportError:
         pass
